@@ -39,13 +39,24 @@ def build_plan(choice: Choice, tier):
     ops = []
     fresh = [0]
 
+    made = []
+
     def val():
+        # a quarter of the values duplicate an existing line (an initial one or one made earlier): a list
+        # distinguishes equal items only by position, remove/index/count must act on the first occurrence
+        pool = p["init"] + made
+        if pool and d(4, "val.dup") == 3:
+            v = pool[d(len(pool), "val.dup.which")]
+            if len(v) < 200:
+                return v
         fresh[0] += 1
-        return f"n{fresh[0]}|{WORDS[d(len(WORDS), 'val')]}"
+        v = f"n{fresh[0]}|{WORDS[d(len(WORDS), 'val')]}"
+        made.append(v)
+        return v
 
     n_ops = 1 + d(14 if tier == "quick" else 24, "ops")
     for _ in range(n_ops):
-        k = d(20, "op")
+        k = d(23, "op")
         if k == 0:
             ops.append(["set", d(12, "i") - 2, val()])
         elif k == 1:
@@ -77,6 +88,12 @@ def build_plan(choice: Choice, tier):
             ops.append(["set_bad", d(6, "i") + 50])      # far out of range
         elif k == 16:
             ops.append(["set_nonstr"])
+        elif k == 20:
+            ops.append(["index_of", d(10, "i")])
+        elif k == 21:
+            ops.append(["count_of", d(10, "i")])
+        elif k == 22:
+            ops.append(["contains", d(10, "i")])
         else:
             fault = d(8, "save.fault")
             ops.append(["save", ENDINGS[d(len(ENDINGS), "ending")], d(2, "save.as_handle"),
@@ -242,6 +259,15 @@ def execute(plan, choice, tmpdir, trace):
             expect_same("remove", lambda: obj.remove(val), lambda: model.remove(val), True)
         elif k == "reverse":
             expect_same("reverse", lambda: obj.reverse(), lambda: model.reverse(), len(model) > 1)
+        elif k in ("index_of", "count_of", "contains"):
+            i = op[1]
+            val = model[i] if i < len(model) else to_item("absent-value")
+            if k == "index_of":
+                expect_same("index", lambda: obj.index(val), lambda: model.index(val), False)
+            elif k == "count_of":
+                expect_same("count", lambda: obj.count(val), lambda: model.count(val), False)
+            else:
+                expect_same("contains", lambda: val in obj, lambda: val in model, False)
         elif k == "get":
             i = op[1]
             expect_same("getitem", lambda: obj[i], lambda: model[i], False)
